@@ -243,16 +243,29 @@ def own_tie(chk, refuted=False, n=None):
     cases = [gen_case(chk.rng, i) for i in range(n)]
     lines = ["%s %s %s\n" % (c["id"], c["op"], c["st"].tokens()) for c in cases]
     outs, errs = vlib.run_sharded(impl, lines, timeout=900, env=LEAKS)
-    crashed = set()
-    for idx, rc, se in errs:
-        c = cases[idx]
-        crashed.add(idx)
-        leak = "LeakSanitizer" in se and outs[idx] is not None
-        chk.violation({"kind": "own-leak" if leak else "own-crash", "op": c["op"], "case": lines[idx].strip(), "rc": rc, "stderr": se[-3000:]},
-                      "ownership harness: %s on (or, for a leak, in the shard of) case: %s\n%s" % (
-                          "memory leaked" if leak else "sanitizer report / abort / failed assertion (rc=%s)" % rc, lines[idx].strip()[:400], se[-1500:]))
-    good = [(c, o) for c, o in zip(cases, outs) if o is not None and o.split(" ")[0] == c["id"]]
-    if len(good) < len(cases) - 16 * max(1, len(errs)):
+    nsh = vlib.NPROC
+    complete = lambda o: o is not None and (" Q=" in o or o.endswith(" f=A"))
+    nviol = 0
+    for sh in sorted({idx % nsh for idx, rc, se in errs}):
+        # a sanitizer abort loses the buffered lines of the whole shard: run its cases again, one process each
+        ids = list(range(sh, len(cases), nsh))
+        o1, e1 = vlib.run_sharded(impl, [lines[i] for i in ids], nshards=len(ids), timeout=300, env=LEAKS)
+        for k, i in enumerate(ids):
+            outs[i] = o1[k]
+        for k, rc, se in e1:
+            idx = ids[k]
+            c = cases[idx]
+            nviol += 1
+            if nviol > 3:
+                continue
+            leak = "LeakSanitizer" in se
+            chk.violation({"kind": "own-leak" if leak else "own-crash", "op": c["op"], "case": lines[idx].strip(), "rc": rc, "stderr": se[-3000:]},
+                          "ownership harness: %s on case: %s\n%s" % ("memory leaked" if leak else "sanitizer report / abort / failed assertion (rc=%s)" % rc,
+                                                                     lines[idx].strip()[:400], se[-1500:]))
+    if nviol:
+        chk.cov["correspondence"]["ownership-crashes"] = nviol
+    good = [(c, o) for c, o in zip(cases, outs) if complete(o) and o.split(" ")[0] == c["id"]]
+    if len(good) < len(cases) - nviol:
         chk.broken_obligation("own-harness", "only %d of %d cases produced a line" % (len(good), len(cases)))
     chunks = [good[i:i + CHUNK] for i in range(0, len(good), CHUNK)]
     agreed = 0
@@ -289,7 +302,24 @@ def _st(**kw):
     return s
 
 
-REFUTED = []
+# the same four states as w1..w4 of coq/Agent/OwnProofs.v (Properties_C12.v: C12_remove_socket_*_refuted)
+REFUTED = [
+    ("w1-shared-turn-socket", "rs:0", "OpRemoveSocket 0", _st(socks=[(0, None, True), (1, 0, True)], lc=[(10, 0, 0), (11, 1, 1), (12, 1, 0)]),
+     "nice_component_remove_socket frees the TURN socket with its relayed candidate, then calls nice_socket_is_based_on on the freed socket for the "
+     "local peer-reflexive candidate discovered through it (heap-use-after-free, socket/socket.c:271)"),
+    ("w2-prflx-on-turn-socket", "rs:0", "OpRemoveSocket 0", _st(socks=[(0, None, True), (1, 0, True)], lc=[(10, 0, 0), (11, 1, 1)], rc=[(20, 1)]),
+     "a remote peer-reflexive candidate learnt on a TURN socket keeps its sockptr after the socket under it is removed (dangling pointer left in "
+     "cmp->remote_candidates; libnice itself only compares it, the harness dereferences it)"),
+    ("w3-turn-candidate", "rs:0", "OpRemoveSocket 0", _st(socks=[(0, None, True), (1, None, True), (2, 0, True)], lc=[(10, 0, 0), (11, 1, 0)], rc=[(20, None)],
+                                                            turn=(9, 2), sel=(9, 20, 50)),
+     "cmp->turn_candidate (parked by nice_component_clean_turn_servers, still the selected local candidate) is not on local_candidates: its TURN socket stays "
+     "attached over the freed base socket (next send through the selected pair / next nice_socket_is_based_on on it reads freed memory)"),
+    ("w4-assert-priority", "rs:0", "OpRemoveSocket 0", _st(socks=[(0, None, True), (1, None, True), (2, 0, True)], lc=[(10, 0, 0), (11, 1, 0), (12, 2, 1)],
+                                                             rc=[(20, None), (21, None)], pairs=[(30, 1, 12, 20, 2, 3, 1, 1, 100), (31, 1, 11, 21, 1, 3, 1, 1, 90)],
+                                                             sel=(12, 20, 100), cstate=4),
+     "selected pair on a relayed candidate whose base socket is removed while another nominated pair lives on another socket: the selected pair is cleared "
+     "(priority 0) before conn_check_prune_socket (TURN socket) -> priv_prune_pending_checks: g_assert (priority > 0) aborts"),
+]
 
 
 def own_refuted(chk, impl):
